@@ -193,6 +193,11 @@ def b1_b2(F, R, b):
     for rule, inst in (('B1', 'B1:decode'), ('B1', 'B1:restore:Ok'), ('B1', 'B1:restore:Err'), ('B2', 'B2:value'), ('B2', 'B2:slot5-64bit'), ('B1', 'panic'), ('B1', 'eval')):
         msg = badv.get(inst)
         name = inst.split(':', 1)[1] if ':' in inst else inst
+        if inst == 'eval' and msg is not None:
+            # the probing function could not be folded against the configuration-space model (an idiom the evaluator does not know):
+            # not decided, rather than a report about the code
+            R.abstain(rule, '%s:%s' % (b['id'], name), msg, where)
+            continue
         R.check(msg is None, rule, '%s:%s' % (b['id'], name), where, '%s holds on %d scenarios' % (name, nsc), msg or '')
 
 
